@@ -17,7 +17,7 @@ RULE = (
     "blocks; whole-frame patterns: no temperature at all, temperature exactly where usage is absent), daily-frequency input or billing reads, 7 zones; billing models additionally under monthly and bimonthly "
     "aggregation. Oracle: row by row isfinite(predicted) == isfinite(observed); a row whose input temperature is missing has "
     "neither; sum(predicted) - sum(observed) == sum(predicted - observed); aggregated period totals equal the masked daily "
-    "totals. Non-trivial: at least one row with temperature missing and usage present AND at least one row with usage "
+    "totals, period by period (each aggregated row pairs the predicted and observed totals of the same calendar period). Non-trivial: at least one row with temperature missing and usage present AND at least one row with usage "
     "missing and temperature present. Distinct = distinct case descriptions."
 )
 ASSUMPTIONS = [
@@ -44,7 +44,7 @@ def cases(draw):
     c["nan_obs"] = draw(st.lists(st.integers(0, 399), max_size=8))
     c["nan_obs_block"] = draw(st.one_of(st.none(), st.tuples(st.integers(0, 380), st.integers(2, 40))))
     # whole-frame patterns: no temperature at all, or temperature exactly where usage is absent (no complete day anywhere)
-    c["pattern"] = draw(st.sampled_from([None, None, None, None, "no_temperature", "complementary", "complementary_blocks"]))
+    c["pattern"] = draw(st.sampled_from([None, None, None, None, "no_temperature", "complementary", "complementary_blocks", "first_month_no_T", "first_month_no_T"]))
     if c["input"] == "reads":
         c["lengths"] = draw(st.lists(st.integers(26, 34), min_size=2, max_size=13))
         c["nan_reads"] = draw(st.lists(st.integers(0, 12), max_size=2))
@@ -102,6 +102,10 @@ def build(c):
         sel = (k % 2 == 0) if pat == "complementary" else ((k // 9) % 2 == 0)
         df.loc[df.index[sel], "temperature"] = np.nan
         df.loc[df.index[~sel], "observed"] = np.nan
+    elif pat == "first_month_no_T":
+        # a weather outage over the whole first calendar month (or weather that starts later than the bills)
+        first = (df.index.year == df.index[0].year) & (df.index.month == df.index[0].month)
+        df.loc[df.index[first], "temperature"] = np.nan
     cls = em.BillingReportingData if fam == "billing" else em.DailyReportingData
     return cls(df, is_electricity_data=True), df
 
@@ -162,6 +166,20 @@ def judge(c, rec):
             if abs(ap - mp) > 1e-9 * scale or abs(ao - mo) > 1e-9 * scale:
                 rec.violation(key + "/aggregated-totals-not-masked/" + agg, c,
                               "aggregated predicted/observed totals %r/%r, masked daily totals %r/%r" % (ap, ao, mp, mo))
+            # period by period: each aggregated row pairs the predicted and the observed total of the same calendar period
+            from .c19 import ref_aggregate
+
+            masked = out.copy()
+            masked.loc[~both, ["predicted", "observed"]] = np.nan
+            for row in ref_aggregate(masked, 1 if agg == "monthly" else 2, c["model"]["tz"]):
+                st_ = row["stamp"]
+                gp_ = float(a["predicted"].get(st_, np.nan)) if st_ in a.index else 0.0
+                go_ = float(a["observed"].get(st_, np.nan)) if st_ in a.index else 0.0
+                gp_, go_ = (0.0 if np.isnan(gp_) else gp_), (0.0 if np.isnan(go_) else go_)
+                if abs(gp_ - row["predicted"][0]) > 1e-9 * scale or abs(go_ - row["observed"][0]) > 1e-9 * scale:
+                    rec.violation(key + "/aggregated-period-mispaired/" + agg, c, "period %s: aggregated predicted/observed %r/%r, the period's masked daily rows give %r/%r" % (
+                        st_.date(), gp_, go_, row["predicted"][0], row["observed"][0]))
+                    break
     # rows whose input had usage but no temperature, and the other way round
     Oin = np.isfinite(data.df["observed"].reindex(out.index).values.astype(float)) if "observed" in data.df else np.zeros(len(out), bool)
     nt = (Tmiss & Oin).any() and (~Tmiss & ~Oin).any()
